@@ -59,7 +59,7 @@ MANIFEST = dict(
               "matrix-kind dataflow; mutation summaries",
 )
 FLOORS = {"C15.1": 8, "C15.2": 10, "C15.3": 10, "C15.4": 3, "C15.5": 1,
-          "C15.6": 4, "C15.8": 12}
+          "C15.6": 4, "C15.8": 12, "C15.9": 10}
 
 RUN = "evo.main_traj.run"
 TP = "evo.core.trajectory.PosePath3D."
@@ -178,13 +178,17 @@ def check(ctx):
             for o in opts:
                 if name == "associate" or len(opts) == 1 or \
                         name in ("align", "transform"):
-                    on = _fold_opts(e.live, {o: True}, None)
-                    # ref presence etc. unknown -> None is fine; False is not
+                    # this option alone (plus a reference) is enough
+                    only = {x: False for x in all_opts}
+                    only.update({o: True, "ref": True})
+                    on = _fold_opts(e.live, only, None)
+                    # data-dependent conditions stay unknown -> None is fine
                     ctx.ob("C15.2", e, on is not False,
-                           f"`{name}` reachable with --{o}"
+                           f"`{name}` reachable with --{o} alone"
                            if on is not False else
-                           f"`{name}` at {e.where} is dead even with --{o}",
-                           key=f"C15.2:{name}:enabled-by:{o}",
+                           f"`{name}` at {e.where} does not run with --{o} "
+                           f"(and --ref) alone: it needs further options or "
+                           f"is dead", key=f"C15.2:{name}:enabled-by:{o}",
                            live=fmt(e.live))
             # no *other* processing option can disable it
             others = {o: False for o in all_opts if o not in opts}
@@ -425,6 +429,7 @@ def check(ctx):
 
     _merge_step(ctx)
     _step_semantics(ctx)
+    _subjects(ctx, f, res, step_events, ref_traj)
 
     # --------------------------------------------------------------- C15.6
     proc_last = max(e.idx for n in OPTION_OF for e in step_events[n])
@@ -453,6 +458,89 @@ def check(ctx):
                + ("runs before processing finished" if not ok else
                   f"file stem {fmt(dest)} does not belong to the written "
                   f"trajectory {fmt(traj)}"), key="C15.6:export")
+
+
+def _subjects(ctx, f, res, step_events, ref_traj):
+    """C15.9: who each step is applied to. Down-sampling, motion filtering
+    and projection act on *every* given trajectory and on the reference;
+    time offset, alignment and the loaded transformation on every trajectory
+    (never the reference, C15.4); every export option writes every trajectory
+    and the reference. A step that is still present for the reference but no
+    longer loops over the trajectories (or the reverse) keeps C15.1-3
+    satisfied while the exported estimate is unprocessed."""
+    trajs = None
+    for ev in res.calls("evo.main_traj.load_trajectories"):
+        trajs = tm.sub(ev.data["result"], const(0))
+    ctx.require(trajs is not None, "load_trajectories call not found")
+
+    def subject(t: Optional[T]) -> str:
+        if t is None:
+            return "none"
+        base = t
+        depth = 0
+        while isinstance(base, T) and base.op in ("attr", "sub") and \
+                depth < 6:
+            if base is ref_traj:
+                return "ref"
+            base = base.args[0]
+            depth += 1
+        if t is ref_traj or base is ref_traj:
+            return "ref"
+        whole = False
+        for x in t.walk():
+            if x.op == "elem":
+                it = x.args[0]
+                partial = any(y.op == "sub" and y.args[1].op == "slice"
+                              for y in it.walk()
+                              if any(z is trajs for z in y.walk()))
+                if any(z is trajs for z in it.walk()) and not partial:
+                    whole = True
+        if whole:
+            return "est"
+        return "other"
+
+    def of(e: Event) -> str:
+        if e.kind == "augassign":
+            return subject(e.data["target"])
+        b = e.data.get("bound") or {}
+        if "traj" in b:
+            return subject(b["traj"])
+        r = e.data.get("recv")
+        if r is not None:
+            alts = {subject(a) for a in tm.strip_ite(r)}
+            for k in ("est", "ref", "other"):
+                if k in alts:
+                    return k
+        return "none"
+    need = {"downsample": {"est", "ref"}, "motion_filter": {"est", "ref"},
+            "project": {"est", "ref"}, "t_offset": {"est"},
+            "align": {"est"}, "align_origin": {"est"}, "transform": {"est"}}
+    for name, want in need.items():
+        got = {of(e) for e in step_events[name]}
+        ok = want <= got
+        ctx.ob("C15.9", step_events[name][0], ok,
+               f"`{name}` is applied to "
+               f"{' and '.join(sorted(want)).replace('est', 'every given trajectory').replace('ref', 'the reference')}"
+               if ok else
+               f"`{name}` is applied to {sorted(got)} only — "
+               f"{sorted(want - got)} is missing: "
+               + ("the given trajectories are exported without this step"
+                  if "est" in want - got else
+                  "the reference is exported without this step"),
+               key=f"C15.9:{name}:subjects", got=sorted(got))
+    kinds = {"tum": "write_tum_trajectory_file",
+             "kitti": "write_kitti_poses_file",
+             "bag": "write_bag_trajectory"}
+    for k, fn in kinds.items():
+        evs = [e for e in step_events["export"]
+               if (e.data.get("name") or "").endswith(fn)]
+        got = {of(e) for e in evs}
+        ok = {"est", "ref"} <= got
+        ctx.ob("C15.9", evs[0] if evs else f, ok,
+               f"export as {k}: every given trajectory and the reference "
+               f"are written" if ok else
+               f"export as {k} writes {sorted(got)} only",
+               key=f"C15.9:export-{k}:subjects", got=sorted(got))
 
 
 def _step_semantics(ctx):
